@@ -292,6 +292,9 @@ impl Harness for C14 {
         let jobs = {
             let mut j: Vec<Job> = jobs;
             j.insert(0, Job::new("builders", json!({"kind": "builders"})));
+            for i in 0..mc_sc::entry::n_parts("C14") {
+                j.insert(1 + i, Job::new(format!("entry-{}", i), json!({"kind": "entry", "part": i})));
+            }
             j
         };
         Plan {
@@ -300,6 +303,7 @@ impl Harness for C14 {
             case_deadline_ms: 20_000,
             floors: vec![
                 ("builder_chains", 5),
+                ("entry_cases", 1000),
                 ("pca_svd_path", 10_000),
                 ("pca_evd_path", 10_000),
                 ("pca_corr_mode", 10_000),
@@ -330,6 +334,7 @@ impl Harness for C14 {
             ],
             bounds: json!({
                 "builders": mc_sc::builders::BOUNDS,
+                "entry_paths": mc_sc::entry::BOUNDS,
                 "lattices": format!("every n x p matrix over the alphabet, for: {}; x {{PCA covariance, PCA correlation: every k in 1..=p; truncated SVD: every k in 1..p and k = p (must be Err)}}; constant columns are outside the statement in correlation mode (skipped, counted)", lattice_desc.join("; ")),
                 "rescaled_lattices": format!("power-of-two rescaling: every matrix of the following lattices with every entry multiplied by 2^e (exact), for every e in {:?}: {}; x the same 3 estimators x every k; same oracle, every tolerance relative to the (scaled) trace; site keys of these inputs end in :tiny-magnitude (0 < max|x| < 2^-20) / :huge-magnitude (max|x| > 2^20)", scaled_exps(t), scaled_desc.join("; ")),
                 "structured": format!("n in {}, p in 1..=8: every (rank structure in {{1,2,p-1,p latent integer factors, exact duplicate column, constant column}}) x (4 column-scale profiles: unit, 2^-7..2^10, 1e-2..1e3, alternating 1e3/1e-2) x (3 mean profiles: 0, +1e4, mixed up to 1e4) x {} generator rotation(s) x 3 estimators x every k", if t { "2..=80 (every n)" } else { "{2,3,5,8,9,17,40,80}" }, if t { 4 } else { 1 }),
@@ -340,6 +345,9 @@ impl Harness for C14 {
     }
 
     fn run(&self, job: &Job) {
+        if job.kind() == "entry" {
+            return mc_sc::entry::run_part("C14", job.u("part"));
+        }
         if job.kind() == "builders" {
             return mc_sc::builders::run("C14");
         }
